@@ -332,6 +332,12 @@ class Ctx:
             print(f"KNOWN-FINDING: property={self.pid} {k}: {v['finding']['what']} ({v['n']} cases, e.g. {json.dumps(v['example'], default=str)[:200]})")
         self.write_evidence(names, discharged, problems, bool(line))
         if line:
+            for v in self.violations[:3]:
+                print("DETAIL violation: " + v["what"] + " :: " + json.dumps(v["case"], default=str)[:300])
+            for d in self.disagreements[:3]:
+                print("DETAIL disagreement: " + d["what"] + " :: " + json.dumps(d["case"], default=str)[:300])
+            for b in broken[:5]:
+                print("DETAIL obligation: " + b["what"] + (" :: " + b.get("log", "")[-800:] if b.get("log") else ""))
             print(line)
             sys.stdout.flush()
             sys.exit(1)
